@@ -2,7 +2,7 @@
 # usage: tools/try_seed.sh <seed-dir-name> <check-id> [tier]   -- apply seeded/<name>/patch.diff to /repo, run check, revert
 name=$1; id=$2; tier=${3:-quick}
 cd /verif
-git -C /repo apply seeded/$name/patch.diff || exit 2
+git -C /repo apply /verif/seeded/$name/patch.diff || exit 2
 ./check $id --tier $tier > _work/seed_$name.$id.log 2>&1
 rc=$?
 git -C /repo checkout -- .
